@@ -35,7 +35,7 @@ THEOREMS = {
             "Obligations.codec_kind_names", "Obligations.codec_fast_traits", "Obligations.codec_framing_consistent",
             "Obligations.codec_clear_rule", "Obligations.codec_escape_format", "Obligations.codec_events",
             "Obligations.codec_user_codecs", "Obligations.C04_extracted"],
-    "C11": ["Codec.C11_events_exact", "Codec.C11_cache_growth_iff", "Codec.C11_no_events", "Codec.C11_steady_state",
+    "C11": ["Codec.C11_events_exact", "Codec.C11_cache_growth_iff", "Codec.C11_queue_growth_iff", "Codec.C11_no_events", "Codec.C11_steady_state",
             "Codec.C11_formatter_calls", "Codec.C11_deferred_no_format",
             "Obligations.codec_extraction_complete", "Obligations.codec_cache_geometry",
             "Obligations.alloc_inline_capacity", "Obligations.alloc_formatter_sites", "Obligations.C11_extracted"],
